@@ -356,6 +356,8 @@ class TreeSim(taps.Sim):
                 self.c10("open_nan_missed", "update on %s succeeded although %s is open at a NaN price" % (date, self.model.open_nan()[0],), {})
             elif self.model.open_nan_coupon():
                 pass
+        if self.cfg.get("ill") == "nan_coupon" and self.model.open_nan_coupon():
+            self.c10("open_nan_missed", "update on %s succeeded although %s is open and its coupon for the date is missing" % (date, self.model.open_nan_coupon()[0],), {"what": "coupon"})
         if root.fixed_income or v != v:
             return
         if v < -self._upd_tol:
@@ -773,7 +775,7 @@ class TreeSim(taps.Sim):
                         raise Stop("next_tick_bad_price")
                     if p == 0:
                         self.fire("held_at_zero_price")
-                    if s.cls in ("CouponPayingSecurity", "CouponPayingHedgeSecurity"):
+                    if s.cls in ("CouponPayingSecurity", "CouponPayingHedgeSecurity") and self.cfg.get("ill") != "nan_coupon":
                         c = self.feed.get("coupons", nt, s.name)
                         if c != c:
                             raise Stop("next_tick_nan_coupon")
@@ -1533,6 +1535,28 @@ def gen_ill_plan(rng, kind, tier="quick"):
         if cls == "CouponPayingSecurity":
             plan["feed"]["coupons"] = [[0.0 for _ in tickers] for _ in range(nd)]
         plan["ops"] = [{"op": "tick"}] * (d + 1) + [{"op": "transact", "n": 0, "c": 0, "qfrac": 0.2, "upd": True, "direct": False, "custom": None}]
+    elif kind == "nan_coupon":
+        # a coupon-paying security whose coupon is missing on one date: holding it on that date is ill-formed, whether the
+        # position is carried into the date or opened during it (flat at the date's first update)
+        fi = rng.random() < 0.6
+        ccls = rng.choice(["CouponPayingSecurity", "CouponPayingHedgeSecurity"])
+        plan["tree"] = {"k": "S", "name": "root", "cls": "FixedIncomeStrategy" if fi else "StrategyBase", "fi": fi, "how": "list", "children": [{"k": "X", "name": t, "cls": ccls if i == 0 else "Security", "mult": 1.0, "decl": rng.choice(["obj", "lazy"]) if i == 0 else "obj"} for i, t in enumerate(tickers)]}
+        cfg["fi"] = fi
+        nd = len(plan["feed"]["dates"])
+        for row in plan["feed"]["prices"]:
+            row[0] = row[0] if (row[0] is not None and row[0] > 0) else 50.0
+        d = rng.randint(1, nd - 1)
+        plan["feed"]["coupons"] = [[rng.choice([0.0, 0.01, 0.05]) for _ in tickers] for _ in range(nd)]
+        plan["feed"]["coupons"][d][0] = None
+        plan["feed"]["cost_long"] = None
+        plan["feed"]["cost_short"] = None
+        trade = {"op": "transact", "n": 0, "c": 0, "qfrac": rng.choice([0.2, -0.2]), "upd": True, "direct": rng.random() < 0.5, "custom": None}
+        if rng.random() < 0.5:
+            plan["ops"] = [{"op": "tick"}] * (d + 1) + [trade]  # opened on the date itself
+            plan["fired"]["ill_coupon_missing_on_opening_date"] = 1
+        else:
+            plan["ops"] = [{"op": "tick"}] * d + [trade, {"op": "tick"}]  # carried into the date
+            plan["fired"]["ill_coupon_missing_on_carried_position"] = 1
     elif kind == "fi_child":
         sub = {"k": "S", "name": "fic", "cls": "FixedIncomeStrategy", "fi": True, "how": "list", "children": [{"k": "X", "name": tickers[0], "cls": "Security", "mult": 1.0, "decl": "obj"}]}
         plan["tree"] = {"k": "S", "name": "root", "cls": rng.choice(["StrategyBase", "Strategy"]), "fi": False, "how": "list", "children": [sub, {"k": "X", "name": tickers[-1], "cls": "Security", "mult": 1.0, "decl": "obj"}]}
